@@ -19,6 +19,9 @@
       of a child, of the renamed layer at its old or new place, of an unrelated layer — is
       its complete previous or its complete new version; `_partial` for the explicit side
       condition that the path is not at or below one of the two automatic export links).
+      `crash_atomic_rename_paths`, `crash_atomic_rename`: the same without that side
+      condition, under the decidable condition `ExportsApart cfg` on the configuration
+      (Lemmas/ExportsApart; the default configuration satisfies it).
 -/
 import Lc.Lemmas.LayerfileRW
 import Lc.Lemmas.WriteLayerFile
@@ -409,6 +412,88 @@ example :
     Fs.get r.2.fs b!"/l/c1/layerconfig" = some (.file b!"base q\n\nimport rbind /dev /dev\n") ∧
     Fs.get r.2.fs b!"/l/c2/layerconfig" = some (.file b!"base q\n\nimport rbind /sys /sys\n") ∧
     Fs.get r.2.fs b!"/l/q/layerconfig" = some (.file b!"import rbind /dev /dev\n") := by decide +kernel
+
+/-! ### (3d) rename without the export-link side condition -/
+
+open Lc.ExportsApart
+
+/-- **rename, every exit, every path of the layer directories** —
+    `crash_atomic_rename_paths_partial` without its export-link clauses.  Hypotheses:
+    `findLayer d oldname = some l`, `Placed cfg l` (established by `readLayerFiles`) and
+    `ExportsApart cfg` (decidable, about exportdirs / exportBinPkg / exportGenerated / layerdirs
+    only; holds for the default configuration).  Either every path in the layer directories
+    (`InLayerDirs`: at or below some `<layerdirs>/<legal name>` or its `~removed`) holds what it
+    held, or the directory has been moved and every such path that is not at/below a temporary
+    file `<layerconfig>.new` of a rewritten layer and not strictly below a rewritten
+    layerconfig holds what the initial tree seen through the move held (`getMoved`), or is a
+    rewritten layer's layerconfig holding exactly its complete new text. -/
+theorem crash_atomic_rename_paths (cfg : Config) (d : Defs) (oldname newname : Bytes)
+    (childOrder : List Bytes) (l : Layer) (w0 : World) (hl : findLayer d oldname = some l)
+    (hpl : Placed cfg l) (hA : ExportsApart cfg) :
+    let w := ((renameLayer cfg d oldname newname childOrder).run.run w0).2
+    (∀ p, InLayerDirs cfg p → Fs.get w.fs p = Fs.get w0.fs p) ∨
+    (∀ p, InLayerDirs cfg p →
+      (∀ k, Rewritten cfg d oldname newname l k →
+        Fs.under (layerconfigPath k ++ tmpSuffix) p = false ∧
+        (Fs.under (layerconfigPath k) p = false ∨ p = layerconfigPath k)) →
+      Fs.get w.fs p = getMoved w0.fs l.layerPath (layerPath cfg newname) p ∨
+      ∃ k, Rewritten cfg d oldname newname l k ∧ p = layerconfigPath k ∧
+        Fs.get w.fs p = some (.file (render (toLayerFile k)))) := by
+  intro w
+  rcases renameLayer_post_apart cfg d oldname newname childOrder l w0 hl hpl hA with h | h
+  · exact Or.inl h
+  · exact Or.inr (fun p hin hk => h p ⟨hin, hk⟩)
+
+/-- **rename, every exit, layer by layer** — `crash_atomic_rename_partial` without the
+    export-link side condition: FULL under hypotheses the code and a decidable check of the
+    configuration establish.  `d` is a table as `findLayers` builds it (every layer `Placed`,
+    names unique), `ExportsApart cfg` holds.  Whatever way `renameLayer` ends — normal return,
+    any error, injected fault, crash at ANY operation index — either nothing in the layer
+    directories changed, or the directory was moved and
+      * the renamed layer's layerconfig at its NEW place holds exactly what it held at the old
+        place, or exactly its complete new text;
+      * every child's layerconfig holds exactly what it held, or exactly its complete new text
+        (same imports and exports, `base` = the new name);
+      * every other layer's layerconfig holds exactly what it held. -/
+theorem crash_atomic_rename (cfg : Config) (d : Defs) (oldname newname : Bytes)
+    (childOrder : List Bytes) (l : Layer) (w0 : World) (hl : findLayer d oldname = some l)
+    (hd : ∀ k ∈ d.layers, Placed cfg k)
+    (hu : ∀ a ∈ d.layers, ∀ b ∈ d.layers, a.name = b.name → a = b) (hA : ExportsApart cfg) :
+    let w := ((renameLayer cfg d oldname newname childOrder).run.run w0).2
+    let l' : Layer := { l with name := newname, layerPath := layerPath cfg newname }
+    (∀ p, InLayerDirs cfg p → Fs.get w.fs p = Fs.get w0.fs p) ∨
+    ((Fs.get w.fs (layerconfigPath l') = Fs.get w0.fs (layerconfigPath l) ∨
+      Fs.get w.fs (layerconfigPath l') = some (.file (render (toLayerFile l')))) ∧
+     ∀ k ∈ d.layers, k.name ≠ oldname →
+      (k.base = oldname →
+        Fs.get w.fs (layerconfigPath k) = Fs.get w0.fs (layerconfigPath k) ∨
+        Fs.get w.fs (layerconfigPath k) = some (.file (render (toLayerFile { k with base := newname })))) ∧
+      (k.base ≠ oldname → Fs.get w.fs (layerconfigPath k) = Fs.get w0.fs (layerconfigPath k))) :=
+  rename_layers_apart cfg d oldname newname childOrder l w0 hl hd hu hA
+
+/-- non-vacuity: the hypotheses of both theorems hold for the example of section (3c) (whose
+    runs, crashed at operation 8 / 1 / not at all, are evaluated above), and for the default
+    configuration -/
+example : ExportsApart exCfg ∧ findLayer exRenDefs b!"p" = some exP ∧
+    (∀ k ∈ exRenDefs.layers, Placed exCfg k) ∧
+    (∀ a ∈ exRenDefs.layers, ∀ b ∈ exRenDefs.layers, a.name = b.name → a = b) := by
+  unfold Placed; decide
+
+example : ExportsApart
+    { basepath := b!"/var/lib/layercake", layerdirs := b!"/var/lib/layercake/layers", buildRoot := b!"build",
+      binPkg := b!"packages", generated := b!"generated", workdir := b!"overlayfs/workdir",
+      upperdir := b!"overlayfs/upperdir", exportdirs := b!"/var/lib/layercake/export",
+      exportBinPkg := b!"packages", exportGenerated := b!"generated" } := by decide
+
+/-- `ExportsApart` is needed: with the export directory equal to the layer directory
+    (`exportdirs = layerdirs`, empty `exportBinPkg`) the packages "link" of `p` is the layer
+    directory `/l/p` itself, so the per-path condition of `crash_atomic_rename_partial` is false
+    for `p`'s own layerconfig -/
+example :
+    let bad : Config := { exCfg with exportdirs := b!"/l", exportBinPkg := [] }
+    ¬ ExportsApart bad ∧ Placed bad exP ∧
+    ¬ (∀ m ∈ exPaths bad exP, Fs.under m (layerconfigPath exP) = false) := by
+  refine ⟨by decide +kernel, ⟨rfl, by decide, by decide⟩, by decide⟩
 
 /-! ### what old-or-new per file does NOT give
 
